@@ -585,10 +585,234 @@ fn task_stress(ctx: &mut Ctx, lines: u32, seed: u64) {
     drop(rt);
 }
 
+/// free-running search (no scheduler: windows that lie between hook points): a thread with a few frames,
+/// optionally a child whose lineage frame names it, then `rounds` times: authority restart (every counter
+/// cold), 4 client threads released together by a spin gate each make one append to the thread (message,
+/// run frames, side effects, cursor), one uncontended post.  Oracle only: every stream 0,1,2,.. in file
+/// order, validated replay succeeds.
+fn cold_counter_stress(ctx: &mut Ctx, seed: u64) {
+    let mut r = Rng::new(seed ^ 0xc01d);
+    let scratch = Scratch::new("c01c");
+    let mut env = Env::open(scratch.path());
+    env.store.ensure_default().expect("default thread");
+    let ids = ids_of(&env);
+    let id = id_at(&ids, 0);
+    for k in 0..r.range(1, 4) {
+        let _ = append_kind(&env.store, &id, 4, k);
+    }
+    let with_child = r.chance(1, 2);
+    if with_child {
+        let _ = env.store.branch(&id, None, None, None, "user".into(), "harness".into());
+    }
+    let rounds = 8;
+    let kinds_all = [4u64, 4, 4, 5, 13, 14, 8];
+    for round in 0..rounds {
+        env.restart();
+        let n = 4usize;
+        let gate = std::sync::atomic::AtomicUsize::new(0);
+        let kinds: Vec<u64> = (0..n).map(|i| if i < 2 { 4 } else { *r.pick(&kinds_all) }).collect();
+        std::thread::scope(|sc| {
+            for (i, k) in kinds.iter().enumerate() {
+                let (gate, store, id) = (&gate, env.store.clone(), id.clone());
+                let k = *k;
+                sc.spawn(move || {
+                    gate.fetch_add(1, std::sync::atomic::Ordering::SeqCst);
+                    while gate.load(std::sync::atomic::Ordering::SeqCst) < n {
+                        std::hint::spin_loop();
+                    }
+                    let _ = std::panic::catch_unwind(std::panic::AssertUnwindSafe(|| append_kind(&store, &id, k, (round * 10 + i) as u64)));
+                });
+            }
+        });
+        let _ = append_kind(&env.store, &id, 4, 99);
+    }
+    ctx.res.evaluations += 1;
+    ctx.leaves += 1;
+    ctx.res.oracle_checks += 1;
+    ctx.res.bump("kind=cold_counter_stress_free_running");
+    let bytes = env.log_bytes();
+    let fresh = rip_log::EventLog::new(env.log_path()).and_then(|l| l.replay_validated().map(|_| ()));
+    let replay = json!({"cold_counter_stress": {"seed": seed, "rounds": rounds, "clients": 4, "child_lineage_frame_names_the_thread": with_child}});
+    match parse_log(&bytes) {
+        Err(e) => ctx.res.oracle_violations.push(OracleViolation { case_id: -1, what: format!("cold counter stress: {e}"), class: "partial_frame".into(), replay }),
+        Ok(hs) => {
+            ctx.res.bump_by("cold_counter_stress_frames", hs.len() as u64);
+            let v = first_order_violation(&hs);
+            if v.is_some() || fresh.is_err() {
+                let seqs: Vec<u64> = hs.iter().filter(|h| h.sid == id).map(|h| h.seq).collect();
+                let what = format!("restart, then 4 clients append to one thread at the same instant ({rounds} rounds): {}; the thread reads {seqs:?} in file order", v.or_else(|| fresh.err().map(|e| e.to_string())).unwrap_or_default());
+                if ctx.res.oracle_violations.len() < 20 {
+                    ctx.res.oracle_violations.push(OracleViolation { case_id: -1, what, class: "cold_counter_first_writers_race".into(), replay });
+                }
+                ctx.res.bump("violation=cold_counter_first_writers_race");
+            }
+        }
+    }
+}
+
+fn http_req(method: &str, uri: &str, body: Option<serde_json::Value>) -> axum::http::Request<axum::body::Body> {
+    let b = axum::http::Request::builder().method(method).uri(uri);
+    match body {
+        Some(v) => b.header("content-type", "application/json").body(axum::body::Body::from(v.to_string())).unwrap(),
+        None => b.body(axum::body::Body::empty()).unwrap(),
+    }
+}
+async fn call_json(app: &axum::Router, r: axum::http::Request<axum::body::Body>) -> (u16, serde_json::Value) {
+    use http_body_util::BodyExt;
+    use tower::ServiceExt;
+    let resp = app.clone().oneshot(r).await.expect("infallible");
+    let st = resp.status().as_u16();
+    let bytes = resp.into_body().collect().await.map(|b| b.to_bytes()).unwrap_or_default();
+    (st, serde_json::from_slice(&bytes).unwrap_or(serde_json::Value::Null))
+}
+
+/// free-running search at the HTTP router (the glue the store-level cases do not see): on one authority,
+/// all at once, released by a spin gate: clients posting messages to one thread (each post starts a linked
+/// run: message, run_spawned, the run's session stream, run_ended), a client branching the thread and
+/// posting to the child, one handing it off, one compaction checkpoint, a session getting two inputs, a
+/// pipes task printing to stdout and stderr.  Oracle only: every stream of events.jsonl is 0,1,2,.. in
+/// file order and a validated replay succeeds.
+fn router_mix(ctx: &mut Ctx, seed: u64) {
+    let mut r = Rng::new(seed ^ 0x7007);
+    let scratch = Scratch::new("c01m");
+    let data_dir = scratch.path().join("data");
+    let ws = scratch.path().join("ws");
+    std::fs::create_dir_all(&data_dir).unwrap();
+    std::fs::create_dir_all(&ws).unwrap();
+    let rt = tokio::runtime::Builder::new_multi_thread().worker_threads(4).enable_all().build().unwrap();
+    let h = rt.handle().clone();
+    let app = {
+        let _g = rt.enter();
+        ripd::verif::build_app(data_dir.clone(), ws.clone(), None)
+    };
+    let log_path = data_dir.join("events.jsonl");
+    let (_, v) = h.block_on(call_json(&app, http_req("POST", "/threads/ensure", None)));
+    let thread = v.get("thread_id").and_then(|x| x.as_str()).unwrap_or("").to_string();
+    // a little history first, so that branch / handoff / checkpoint have something to cut
+    let mut warm = 0u64;
+    for k in 0..r.range(1, 3) {
+        let (st, _) = h.block_on(call_json(&app, http_req("POST", &format!("/threads/{thread}/messages"), Some(json!({"content": format!("warm-up {k}")})))));
+        if st == 202 {
+            warm += 1;
+        }
+    }
+    let posts = std::sync::atomic::AtomicU64::new(warm);
+    let inputs = std::sync::atomic::AtomicU64::new(0);
+    let tasks = std::sync::atomic::AtomicU64::new(0);
+    let n_clients = 8usize;
+    let gate = std::sync::atomic::AtomicUsize::new(0);
+    let lines = r.range(20, 60);
+    std::thread::scope(|sc| {
+        for c in 0..n_clients {
+            let (app, h, thread, gate, posts, inputs, tasks) = (&app, &h, &thread, &gate, &posts, &inputs, &tasks);
+            sc.spawn(move || {
+                use std::sync::atomic::Ordering::SeqCst;
+                gate.fetch_add(1, SeqCst);
+                while gate.load(SeqCst) < n_clients {
+                    std::hint::spin_loop();
+                }
+                let post = |tid: &str, text: String| {
+                    let (st, _) = h.block_on(call_json(app, http_req("POST", &format!("/threads/{tid}/messages"), Some(json!({"content": text})))));
+                    if st == 202 {
+                        posts.fetch_add(1, SeqCst);
+                    }
+                };
+                let _ = std::panic::catch_unwind(std::panic::AssertUnwindSafe(|| match c {
+                    0..=2 => {
+                        for k in 0..2 {
+                            post(thread, format!("client {c} message {k}"));
+                        }
+                    }
+                    3 => {
+                        let (st, v) = h.block_on(call_json(app, http_req("POST", &format!("/threads/{thread}/branch"), Some(json!({})))));
+                        if let (true, Some(child)) = (st < 300, v.get("thread_id").and_then(|x| x.as_str())) {
+                            post(child, "to the child".into());
+                        }
+                        post(thread, "after the branch".into());
+                    }
+                    4 => {
+                        let (st, v) = h.block_on(call_json(app, http_req("POST", &format!("/threads/{thread}/handoff"), Some(json!({"summary_markdown": "# handed off"})))));
+                        if let (true, Some(child)) = (st < 300, v.get("thread_id").and_then(|x| x.as_str())) {
+                            post(child, "to the handoff".into());
+                        }
+                    }
+                    5 => {
+                        let _ = h.block_on(call_json(app, http_req("POST", &format!("/threads/{thread}/compaction-checkpoint"), Some(json!({"summary_markdown": "# checkpoint"})))));
+                        post(thread, "after the checkpoint".into());
+                    }
+                    6 => {
+                        let (_, v) = h.block_on(call_json(app, http_req("POST", "/sessions", None)));
+                        if let Some(sid) = v.get("session_id").and_then(|x| x.as_str()) {
+                            for k in 0..2 {
+                                let (st, _) = h.block_on(call_json(app, http_req("POST", &format!("/sessions/{sid}/input"), Some(json!({"input": format!("unlinked input {k}")})))));
+                                if st == 202 {
+                                    inputs.fetch_add(1, SeqCst);
+                                }
+                            }
+                        }
+                    }
+                    _ => {
+                        let cmd = format!("for i in $(seq 1 {lines}); do echo out-$i; echo err-$i 1>&2; done");
+                        let (st, _) = h.block_on(call_json(app, http_req("POST", "/tasks", Some(json!({"tool": "bash", "args": {"command": cmd}})))));
+                        if st == 201 {
+                            tasks.fetch_add(1, SeqCst);
+                        }
+                    }
+                }));
+            });
+        }
+    });
+    use std::sync::atomic::Ordering::SeqCst;
+    let (posts, inputs, tasks) = (posts.load(SeqCst), inputs.load(SeqCst), tasks.load(SeqCst));
+    let read = || -> Vec<Hdr> {
+        let bytes = std::fs::read(&log_path).unwrap_or_default();
+        let cut = bytes.iter().rposition(|b| *b == b'\n').map(|i| i + 1).unwrap_or(0);
+        parse_log(&bytes[..cut]).unwrap_or_default()
+    };
+    // quiescence: every accepted post's run has its run_ended frame, every run its session_ended, the task a
+    // terminal status; the clock only bounds a run that never ends (not this property's business)
+    let mut quiet = false;
+    for _ in 0..2400 {
+        let hs = read();
+        let run_ended = hs.iter().filter(|x| matches!(x.ev.kind, rip_kernel::EventKind::ContinuityRunEnded { .. })).count() as u64;
+        let sess_ended = hs.iter().filter(|x| matches!(x.ev.kind, rip_kernel::EventKind::SessionEnded { .. })).count() as u64;
+        let task_fin = hs.iter().filter(|x| matches!(&x.ev.kind, rip_kernel::EventKind::ToolTaskStatus { status, .. } if { let s = format!("{status:?}").to_lowercase(); s.contains("exit") || s.contains("fail") })).count() as u64;
+        if run_ended >= posts && sess_ended >= posts + inputs && task_fin >= tasks {
+            std::thread::sleep(Duration::from_millis(150));
+            quiet = true;
+            break;
+        }
+        std::thread::sleep(Duration::from_millis(25));
+    }
+    ctx.res.evaluations += 1;
+    ctx.leaves += 1;
+    ctx.res.oracle_checks += 1;
+    ctx.res.bump("kind=router_mix_free_running");
+    ctx.res.bump_by("router_mix_posts_accepted", posts);
+    if !quiet {
+        ctx.res.bump("router_mix_not_quiet_in_time");
+    }
+    let hs = read();
+    ctx.res.bump_by("router_mix_frames", hs.len() as u64);
+    let streams: std::collections::BTreeSet<(u64, String)> = hs.iter().map(|x| (kind_code(x.kind), x.sid.clone())).collect();
+    ctx.res.bump_by("router_mix_streams", streams.len() as u64);
+    let fresh = if quiet { rip_log::EventLog::new(&log_path).and_then(|l| l.replay_validated().map(|_| ())) } else { Ok(()) };
+    let v = first_order_violation(&hs);
+    if v.is_some() || fresh.is_err() {
+        let what = format!("router mix ({posts} posts, {inputs} session inputs, {tasks} task, branch, handoff, checkpoint at once): {}", v.or_else(|| fresh.err().map(|e| e.to_string())).unwrap_or_default());
+        if ctx.res.oracle_violations.len() < 20 {
+            ctx.res.oracle_violations.push(OracleViolation { case_id: -1, what, class: "router_mix_stream_file_order".into(), replay: json!({"router_mix": {"seed": seed}}) });
+        }
+        ctx.res.bump("violation=router_mix_stream_file_order");
+    }
+    drop(app);
+    drop(rt);
+}
+
 /// A handful of provider-script sessions (run streams are written by session.rs with a run-local
 /// counter threaded through the provider pipe and the tool runner): oracle only - every stream of the
 /// final log is 0,1,2,.. in file order.
-fn session_case(ctx: &mut Ctx, variant: usize) {
+fn session_case(ctx: &mut Ctx, wsg: &mut CaseWriter, variant: usize) {
     use rv::provider::{sse_event, Scripted, ScriptedProvider, SSE_DONE};
     let scratch = Scratch::new("c01r");
     let data_dir = scratch.path().join("data");
@@ -665,6 +889,23 @@ fn session_case(ctx: &mut Ctx, variant: usize) {
         Err(e) => ctx.res.oracle_violations.push(OracleViolation { case_id: -1, what: format!("session script {label}: {e}"), class: "partial_frame".into(), replay: json!({"session_script": label}) }),
         Ok(hs) => {
             ctx.res.bump_by("session_script_frames", hs.len() as u64);
+            // the run's stream against the session actor of the model (MSessEmit: frame at the run-local
+            // counter, counter + 1): the frame kinds are taken from the file, the numbering is the model's
+            if let (false, true, Some(first)) = (ctx.oracle_only, ended, hs.iter().find(|h| h.kind == rip_kernel::StreamKind::Session)) {
+                let sid = first.sid.clone();
+                let stream: Vec<&Hdr> = hs.iter().filter(|h| h.kind == rip_kernel::StreamKind::Session && h.sid == sid).collect();
+                let in_order = stream.iter().enumerate().all(|(i, h)| h.seq == i as u64);
+                let mut obs = vec![1, in_order as u64];
+                for h in &stream {
+                    obs.extend([0, h.seq, h.code]);
+                }
+                let id = wsg.push(format!(
+                    "{{| sg_n := 1; sg_ts := [{}]; sg_sched := [0]; sg_expect := {} |}}",
+                    stream.iter().map(|h| coq_etype(h.code)).collect::<Vec<_>>().join("; "),
+                    coq_list_n(&obs)
+                ));
+                ctx.res.case_index.insert(id.to_string(), json!({"session_script": label}));
+            }
             if let Some(v) = first_order_violation(&hs) {
                 ctx.res.oracle_violations.push(OracleViolation { case_id: -1, what: format!("session script {label}: {v}"), class: "session_stream_file_order".into(), replay: json!({"session_script": label}) });
                 ctx.res.bump("violation=session_stream_file_order");
@@ -1029,6 +1270,7 @@ impl Ctx {
 fn exhaustive(ctx: &mut Ctx, case: &Case, cap: usize, kind: &str) {
     let mut prefix: Vec<usize> = vec![];
     let mut n = 0;
+    let mut blocked = 0;
     let is_task = case.actors.iter().flatten().any(|o| matches!(o, Op::TaskEmit { .. }));
     loop {
         if ctx.stop() {
@@ -1042,6 +1284,16 @@ fn exhaustive(ctx: &mut Ctx, case: &Case, cap: usize, kind: &str) {
         };
         ctx.record(case, &leaf, kind);
         n += 1;
+        // an actor that blocks on a lock the harness does not know about costs the in-flight timeout on
+        // every leaf: after a few such leaves the group is given up (coverage is lost, nothing is
+        // concluded) so that the wall budget is left for the other groups
+        if leaf.inconclusive {
+            blocked += 1;
+            if blocked >= 4 {
+                ctx.res.bump("group_abandoned_actor_blocked_on_unknown_lock");
+                break;
+            }
+        }
         // next prefix: rightmost decision that still has an untried alternative
         let mut next = None;
         for i in (0..leaf.choices.len()).rev() {
@@ -1120,6 +1372,14 @@ fn gen_setup(r: &mut Rng, with_restart: bool) -> (Vec<Setup>, usize) {
 
 fn main() {
     let a = parse_args();
+    // no configuration of the machine may leak into the runs the router starts
+    for (k, _) in std::env::vars() {
+        if k.starts_with("RIP_") || k == "OPENAI_API_KEY" || k == "OPENROUTER_API_KEY" {
+            std::env::remove_var(&k);
+        }
+    }
+    let cfg_home = Scratch::new("c01cfg");
+    std::env::set_var("RIP_CONFIG_HOME", cfg_home.path());
     let mut res = RunResult::new("C01", &a);
     res.rule = "case = sequential setup history on the real ContinuityStore (messages, runs, branches, sidecar faults, restart) followed by 2-4 concurrent actors (locked appends of 7 kinds, post-to-newest-listed, branch, handoff, replay) run on OS threads under the controlled scheduler; one evaluation = one complete schedule (leaf); exhaustive = every interleaving of two one-call actors at the cont.* points; non-trivial = at least two real scheduling decisions; distinct by (setup, actors, decision list)".into();
     let w = CaseWriter::new(&a.out, "Model.Frames Model.Log Model.ContStore", "check_case_c01", "model_obs_c01", 40);
@@ -1128,11 +1388,7 @@ fn main() {
     let mut r = Rng::new(a.seed);
     let thorough = a.thorough();
 
-    // ---- corpus: S5 (child lineage frame vs a post to the freshly listed child), S3 (stale prefix + restart)
-    let s5 = Case { setup: vec![Setup::Msg { th: 0 }], actors: vec![vec![Op::Branch { th: 0 }], vec![Op::PostNewest]] };
-    exhaustive(&mut ctx, &s5, if thorough { 4000 } else { 400 }, "corpus_s5_branch_vs_post_newest");
-    let s5h = Case { setup: vec![Setup::Msg { th: 0 }], actors: vec![vec![Op::Handoff { th: 0 }], vec![Op::PostNewest]] };
-    exhaustive(&mut ctx, &s5h, if thorough { 4000 } else { 150 }, "corpus_s5_handoff_vs_post_newest");
+    // ---- corpus: S3 (stale prefix + restart)
     for x in [Fault::CutLine, Fault::Rollback(2)] {
         let s3 = Case {
             setup: vec![Setup::Msg { th: 0 }, Setup::Msg { th: 0 }, Setup::Msg { th: 0 }, Setup::Fault { x, th: 0 }, Setup::Restart],
@@ -1151,6 +1407,35 @@ fn main() {
         exhaustive(&mut ctx, &case, 40, "corpus_stale_prefix_restart_read_then_append");
     }
 
+    // ---- cold counter: the FIRST writers of a thread after a restart (every append function recovers the
+    // next seq from the log on first use): message x message, every hook-reachable append function x
+    // message, three writers; with and without a lineage frame of a child naming the thread at the log's end
+    for (k, branch_before) in [(4u64, false), (4, true), (5, false), (13, false), (14, true), (6, false), (7, false), (8, true)] {
+        let mut setup = vec![Setup::Msg { th: 0 }, Setup::Msg { th: 0 }];
+        if branch_before {
+            setup.push(Setup::Branch { th: 0 });
+        }
+        setup.push(Setup::Restart);
+        let case = Case { setup, actors: vec![vec![Op::Append { t: 4, th: 0 }], vec![Op::Append { t: k, th: 0 }]] };
+        exhaustive(&mut ctx, &case, if thorough { 400 } else { 22 }, "exhaustive_cold_counter_first_writers");
+    }
+    {
+        let setup = vec![Setup::Msg { th: 0 }, Setup::Run { th: 0 }, Setup::Branch { th: 0 }, Setup::Restart];
+        let case = Case { setup, actors: vec![vec![Op::Append { t: 4, th: 0 }], vec![Op::Append { t: 4, th: 0 }], vec![Op::Append { t: 13, th: 0 }, Op::Append { t: 4, th: 1 }]] };
+        exhaustive(&mut ctx, &case, if thorough { 600 } else { 40 }, "exhaustive_cold_counter_first_writers");
+    }
+    for k in 0..(if thorough { 40 } else { 6 }) {
+        if !ctx.stop() {
+            cold_counter_stress(&mut ctx, a.seed * 1000 + k);
+        }
+    }
+
+    // ---- corpus S5 (child lineage frame vs a post to the freshly listed child)
+    let s5 = Case { setup: vec![Setup::Msg { th: 0 }], actors: vec![vec![Op::Branch { th: 0 }], vec![Op::PostNewest]] };
+    exhaustive(&mut ctx, &s5, if thorough { 4000 } else { 400 }, "corpus_s5_branch_vs_post_newest");
+    let s5h = Case { setup: vec![Setup::Msg { th: 0 }], actors: vec![vec![Op::Handoff { th: 0 }], vec![Op::PostNewest]] };
+    exhaustive(&mut ctx, &s5h, if thorough { 4000 } else { 150 }, "corpus_s5_handoff_vs_post_newest");
+
     // ---- task stream: concurrent emitters of ONE task (stdout pump, stderr pump, control path)
     let e = |stderr: bool| Op::TaskEmit { stderr };
     let task_cases: Vec<Vec<Vec<Op>>> = vec![
@@ -1168,16 +1453,23 @@ fn main() {
         }
     }
 
+    // ---- everything at once through the HTTP router
+    for k in 0..(if thorough { 30 } else { 4 }) {
+        if !ctx.stop() {
+            router_mix(&mut ctx, a.seed * 100 + k);
+        }
+    }
+
     // ---- run (session) streams driven by provider scripts, incl. requests that fail local validation
+    let mut wsg = CaseWriter::new(&a.out.join("sg"), "Model.Frames Model.Log Model.ContStore Model.SessGuard", "check_case_sg", "model_obs_sg", 40).with_base(1_000_000);
     for v in 0..6 {
         if !ctx.stop() {
-            session_case(&mut ctx, v);
+            session_case(&mut ctx, &mut wsg, v);
         }
     }
 
     // ---- concurrent inputs to ONE session: the started-guard of spawn_session is what makes a session
     // stream single-writer.  Stepped (deterministic, compared with the model) and raced (spin gate).
-    let mut wsg = CaseWriter::new(&a.out.join("sg"), "Model.Frames Model.Log Model.ContStore Model.SessGuard", "check_case_sg", "model_obs_sg", 40).with_base(1_000_000);
     for (n, tool) in [(2usize, false), (3, false), (4, true), (2, true)] {
         if !ctx.stop() {
             session_race(&mut ctx, &mut wsg, n, true, if thorough { 12 } else { 3 }, tool);
